@@ -34,6 +34,9 @@ type TLSMat struct {
 	SignECDSA tls.Certificate // S/MIME signer (P-256)
 	SignP384  tls.Certificate // S/MIME signer (ECDSA P-384)
 	SignP521  tls.Certificate // S/MIME signer (ECDSA P-521)
+	// SignSameSerial: a P-256 signer whose serial number equals the intermediate's (serial numbers are only unique per
+	// issuer: the signer is certificate no. 6 of the intermediate, the intermediate certificate no. 6 of the root)
+	SignSameSerial tls.Certificate
 }
 
 var (
@@ -112,6 +115,9 @@ func Mat() *TLSMat {
 		k521, _ := ecdsa.GenerateKey(elliptic.P521(), rand.Reader)
 		c521, d521 := mkCert(leafTmpl("ecdsa p-521 signer", 10, nil, nil), inter, &k521.PublicKey, interKey)
 		m.SignP521 = tls.Certificate{Certificate: [][]byte{d521}, PrivateKey: k521, Leaf: c521}
+		ks, _ := ecdsa.GenerateKey(elliptic.P256(), rand.Reader)
+		cs, ds := mkCert(leafTmpl("ecdsa signer with the intermediate's serial number", 6, nil, nil), inter, &ks.PublicKey, interKey)
+		m.SignSameSerial = tls.Certificate{Certificate: [][]byte{ds}, PrivateKey: ks, Leaf: cs}
 		mat = m
 	})
 	return mat
